@@ -320,7 +320,7 @@ META = {
                    "doors are enumerated over the whole workspace: the set of bodies projecting the field is included in {expose, zeroize, derived "
                    "Clone/PartialEq}; at every expose() site an interprocedural forward taint shows the value reaches only length arithmetic, the "
                    "zeroized key buffer and the HMAC key operand; every container of a SecretKey formats it only through the redacting impls; "
-                   "compile-fail witnesses (thorough) show no implicit conversion to text exists.",
+                   "compile-fail witnesses (thorough) show no implicit conversion to text exists. Also: ingress taint - the text a SecretKey is built from (new, From impls, Deserialize) flows only into the SecretKey.",
     "not_decided": ["secrets before they are wrapped (the caller's own strings)", "side channels"],
     "assumptions": ["rustc nightly MIR construction and privacy checking", "unsafe_code = forbid in the workspace (no aliasing through raw pointers)",
                     "HMAC-SHA256 / HMAC-SHA1 output does not reveal the key (declassifier)"],
